@@ -277,6 +277,9 @@ def g_dimensions():
     return run
 
 
+BUDGET_S = {'quick': 600, 'thorough': 1200}
+
+
 def groups(tier):
     q = tier == 'quick'
     chain = ([['link', 'copy_like'], ['write', 'T:=', 'phase:=', 'unlink', 'unlink-other', 'write-other']] if q else
